@@ -258,7 +258,45 @@ func c14Grammar(r *prng.Rand, t *c14Target, i int) []byte {
 	if t.text {
 		n := r.Range(0, 40)
 		b := make([]byte, n)
-		switch i % 4 {
+		switch i % 5 {
+		case 4:
+			// exact BYTE lengths around those of a GUTI, made of a valid prefix, hex digits and
+			// letters whose case mapping changes the encoded length (Kelvin sign, dotted capital I,
+			// angstrom and ohm signs, capital sharp s, long s, dotless i) or is not valid UTF-8:
+			// code that upper/lower-cases or re-encodes text and then slices at fixed offsets
+			target := []int{19, 20, 19, 20, 18, 21, 6, 12}[r.Intn(8)]
+			g := refconv.GutiText(digits(r, 3), digits(r, 2+r.Intn(2)), r.Uint32()&0xffffff, r.Uint32())
+			out := []byte(g[:r.Intn(9)])
+			special := []string{"\u212a", "\u0130", "\u212b", "\u2126", "\u1e9e", "\u017f", "\u0131", "\u00df", "\xc3", "\xff", "\u01c5"}
+			if r.Bool() {
+				// one such letter repeated to the exact length, the remainder a shorter one or digits
+				x := special[r.Intn(len(special))]
+				for len(out)+len(x) <= target {
+					out = append(out, x...)
+				}
+				for len(out) < target {
+					if target-len(out) >= 2 && r.Bool() {
+						out = append(out, []string{"\u0130", "\u0131", "\u017f", "\u00df"}[r.Intn(4)]...)
+					} else {
+						out = append(out, "0123456789abcdef"[r.Intn(16)])
+					}
+				}
+				return out
+			}
+			for tries := 0; len(out) != target && tries < 200; tries++ {
+				var add string
+				if r.Chance(2, 3) {
+					add = special[r.Intn(len(special))]
+				} else {
+					add = string("0123456789abcdefABCDEF"[r.Intn(22)])
+				}
+				if len(out)+len(add) <= target {
+					out = append(out, add...)
+				} else if len(out) < target {
+					out = append(out, "0123456789abcdef"[r.Intn(16)])
+				}
+			}
+			return out
 		case 0: // digits/hex of GUTI-like lengths
 			n = []int{17, 18, 19, 20, 21, 5, 6, 7}[r.Intn(8)]
 			b = make([]byte, n)
